@@ -4,7 +4,7 @@ import numpy as np
 from harness import common as C
 from harness import zoo as Z
 
-ANCHORS = ["T4", "T6lat"]
+ANCHORS = ["T4", "T6lat", "T7pipe"]
 MODELS = ["ScalerFit"]
 RULE = ("per-feature shifts and positive scalings over many orders of magnitude (std kept above the 1.2e-7 floor), positive weight fields as "
         "DataArray/Dataset/list, latitudes in [-90, 90] under each accepted latitude name, global factors c != 0 of both signs; EOF, ComplexEOF, "
@@ -203,6 +203,23 @@ def run_cross(ctx, rng, N):
         wl1 = xr.DataArray(np.sqrt(np.cos(np.deg2rad(dx.lat.values))), dims=("lat",), coords={"lat": dx.lat})
         wl2 = xr.DataArray(np.sqrt(np.cos(np.deg2rad(dy.lat.values))), dims=("lat",), coords={"lat": dy.lat})
         same("C08:%s:coslat" % name, "%s: use_coslat vs weights sqrt(cos(lat))" % name, fit(dx, dy, use_coslat=True), fit(dx, dy, wl1, wl2))
+        # ---- options given per field: each flag acts on its own field only
+        for flags in ([True, False], [False, True]):
+            ctx.case(("xcoslat-per-field", name, tuple(flags), i), nontrivial=True, tag="%s/coslat-per-field" % name)
+            try:
+                same("C08:%s:coslat-per-field" % name, "%s: use_coslat=%r vs weights sqrt(cos(lat)) on the flagged field only" % (name, flags),
+                     fit(dx, dy, use_coslat=flags), fit(dx, dy, wl1 if flags[0] else None, wl2 if flags[1] else None))
+            except Exception as e:
+                ctx.violation("C08:%s:coslat-per-field:error" % name, "%s(use_coslat=%r) raised %r" % (name, flags, e), replay)
+        for flags in ([True, False], [False, True]):
+            ctx.case(("xstd-per-field", name, tuple(flags), i), nontrivial=True, tag="%s/standardize-per-field" % name)
+            try:
+                sx = X / X.std(axis=0) if flags[0] else X
+                sy = Y / Y.std(axis=0) if flags[1] else Y
+                same("C08:%s:standardize-per-field" % name, "%s: standardize=%r vs pre-standardised data on the flagged field only" % (name, flags),
+                     fit(dx, dy, standardize=flags), fit(as_da(sx), as_da(sy)), tol=1e-6)
+            except Exception as e:
+                ctx.violation("C08:%s:standardize-per-field:error" % name, "%s(standardize=%r) raised %r" % (name, flags, e), replay)
         if name == "MCA":
             ctx.case(("xglobal", name, i), nontrivial=True, tag="%s/global" % name)
             cf = float(-10.0 ** rng.uniform(-3, 3))
